@@ -68,5 +68,6 @@ let () =
       let out = write_doc wm_unparse_string wm_unparse_name d in
       let oc = open_out_bin outp in
       output_string oc (string_of_bytes out); close_out oc;
-      "ok " ^ string_of_int (List.length out)
+      (* wf_doc_b: the decidable hypothesis of write_read_strict_b (proved sound in Obj/C01WfProofs.v) *)
+      "ok " ^ string_of_int (List.length out) ^ (if wf_doc_b d then " wf" else " notwf")
     | _ -> "?args")
